@@ -362,7 +362,13 @@ def qa_restricted_from_ancestors(ctx: Ctx):
         names = None
         if tgt is not None and tgt[0] == "loopvar" and tgt[1] in prog.loops:
             names = prog.loops[tgt[1]].iter
-        elif tgt is not None and tgt[0] != "bv":
+        elif tgt is not None and tgt[0] == "bv":
+            # the variable of a comprehension / generator: its iterable
+            for c in deep_walk(prog, t):
+                if c[0] == "comp" and any(g[0] == tgt for g in c[3]) and any(x == a0 for x in walk(c[2])):
+                    names = next(g[1] for g in c[3] if g[0] == tgt)
+                    break
+        elif tgt is not None:
             names = tgt
         ok_tgt = None
         if names is not None:
